@@ -1,33 +1,21 @@
+(* main.ml — the correspondence driver.
+     simrun family <Cnn> <quick|thorough> <seed> <out.json> [jobs] [budget_s]
+     simrun replay <file> <Cnn>
+     simrun demo *)
 open Model
 open Glue
 open Scn
 
-let diff_runs (m : runres) (r : runres) =
-  let tm = List.rev m.r_last.w_trace and tr = List.rev r.r_last.w_trace in
-  let rec go i a b = match a, b with
-    | [], [] -> ()
-    | x :: a', y :: b' ->
-      if x = y then go (i + 1) a' b'
-      else (Printf.printf "  trace differs at %d:\n    model: %s\n    impl : %s\n" i (Show.event x) (Show.event y);
-            List.iteri (fun k e -> if k < 3 then Printf.printf "    model+%d: %s\n" (k+1) (Show.event e)) a';
-            List.iteri (fun k e -> if k < 3 then Printf.printf "    impl +%d: %s\n" (k+1) (Show.event e)) b')
-    | x :: _, [] -> Printf.printf "  model has extra event %d: %s\n" i (Show.event x)
-    | [], y :: _ -> Printf.printf "  impl has extra event %d: %s\n" i (Show.event y) in
-  go 0 tm tr;
-  Printf.printf "  model final=%s impl final=%s\n" (Show.final m.r_final) (Show.final r.r_final);
-  List.iter2 (fun a b ->
-      if a.s_res <> b.s_res then
-        Printf.printf "  result differs for %s: model %s impl %s\n" (Show.op a.s_op) (Show.opres a.s_res) (Show.opres b.s_res))
-    (List.filteri (fun i _ -> i < List.length r.r_steps) m.r_steps)
-    (List.filteri (fun i _ -> i < List.length m.r_steps) r.r_steps)
+let timeout_s = ref 30
 
-(* run a scenario on the implementation in a forked process *)
+(* run a scenario on the implementation in a forked process (crash isolation, clean state) *)
 let run_impl_isolated (sc : scenario) : (runres * string list) option =
   let (rfd, wfd) = Unix.pipe () in
   flush stdout; flush stderr;
   match Unix.fork () with
   | 0 ->
     Unix.close rfd;
+    ignore (Unix.alarm !timeout_s);
     let res = Impl.run_impl sc in
     let oc = Unix.out_channel_of_descr wfd in
     Marshal.to_channel oc res []; flush oc; Unix._exit 0
@@ -39,15 +27,239 @@ let run_impl_isolated (sc : scenario) : (runres * string list) option =
     ignore (Unix.waitpid [] k);
     res
 
-let () =
-  let w = mk_world ~fs:[ prog "/bin/c" [ a_write 1 10; a_sleep 50; a_exit 7 ] ] () in
-  let sc = { sc_world = w; sc_ops = [ new_ (); start (argv [ "c" ]); read 1 100; wait (-1); read 1 100; destroy () ] } in
+type verdict = {
+  v_equal : bool;                 (* whole runs identical (diagnostic) *)
+  v_proj_equal : bool;
+  v_diff : string;                (* first differing projection line *)
+  v_impl_fails : Mon.fail list;
+  v_model_fails : Mon.fail list;
+  v_crashed : bool;
+  v_digest : string;
+  v_nontrivial : bool;
+  v_final : string;
+  v_nops : int;
+}
+
+let first_diff a b =
+  let rec go k a b = match a, b with
+    | [], [] -> ""
+    | x :: a', y :: b' -> if x = y then go (k + 1) a' b' else Printf.sprintf "line %d: model `%s` impl `%s`" k x y
+    | x :: _, [] -> Printf.sprintf "line %d: model `%s` impl <nothing>" k x
+    | [], y :: _ -> Printf.sprintf "line %d: model <nothing> impl `%s`" k y in
+  go 0 a b
+
+let judge (prop : string) (sc : scenario) : verdict =
   let m = run_model sc in
-  Printf.printf "model: final=%s steps=%d events=%d\n" (Show.final m.r_final) (List.length m.r_steps) (List.length m.r_last.w_trace);
-  List.iter (fun st -> Printf.printf "  %s -> %s\n" (Show.op st.s_op) (Show.opres st.s_res)) m.r_steps;
+  let pm = Mon.projection prop m [] in
+  let mf = Mon.monitor prop m sc [] in
+  let nontrivial = List.exists (fun st -> match st.s_op, st.s_res with
+      | OStart _, RInt r -> int_of_z r > 0 | (ORunEx _ | ORun _), _ -> true | _ -> false) m.r_steps
+                   || (prop = "C13" || prop = "C04") in
   match run_impl_isolated sc with
-  | None -> print_endline "impl: crashed"
+  | None ->
+    { v_equal = false; v_proj_equal = false; v_diff = "implementation run crashed or timed out";
+      v_impl_fails = [ { Mon.key = prop ^ "/crash"; what = "the implementation run crashed (signal, abort or watchdog)" } ];
+      v_model_fails = mf; v_crashed = true; v_digest = Digest.to_hex (Digest.string (String.concat "\n" pm));
+      v_nontrivial = nontrivial; v_final = "impl-crash"; v_nops = List.length sc.sc_ops }
   | Some (r, fl) ->
-    Printf.printf "impl: final=%s steps=%d events=%d flags=%s\n" (Show.final r.r_final) (List.length r.r_steps) (List.length r.r_last.w_trace) (String.concat "," fl);
-    List.iter (fun st -> Printf.printf "  %s -> %s\n" (Show.op st.s_op) (Show.opres st.s_res)) r.r_steps;
-    if m = r then print_endline "EQUAL" else (print_endline "DIFFERENT"; diff_runs m r)
+    let pr = Mon.projection prop r fl in
+    let rf = Mon.monitor prop r sc fl in
+    { v_equal = (m = r && fl = []); v_proj_equal = (pm = pr); v_diff = (if pm = pr then "" else first_diff pm pr);
+      v_impl_fails = rf; v_model_fails = mf; v_crashed = false;
+      v_digest = Digest.to_hex (Digest.string (String.concat "\n" pr));
+      v_nontrivial = nontrivial; v_final = Show.final r.r_final; v_nops = List.length sc.sc_ops }
+
+(* ---- shrinking: greedy removal of ops / faults / latencies while [bad] still holds ---- *)
+let shrink (bad : scenario -> bool) (sc : scenario) : scenario =
+  let budget = ref 120 in
+  let try_ sc' = if !budget <= 0 then false else (decr budget; bad sc') in
+  let cur = ref sc in
+  let progress = ref true in
+  while !progress && !budget > 0 do
+    progress := false;
+    (* drop ops from the end towards the front *)
+    let n = List.length !cur.sc_ops in
+    let k = ref (n - 1) in
+    while !k >= 0 && !budget > 0 do
+      let ops' = List.filteri (fun j _ -> j <> !k) !cur.sc_ops in
+      let sc' = { !cur with sc_ops = ops' } in
+      if try_ sc' then (cur := sc'; progress := true);
+      decr k
+    done;
+    let w = !cur.sc_world in
+    List.iter (fun f ->
+        let w' = { !cur.sc_world with w_faults = List.filter (fun g -> g <> f) !cur.sc_world.w_faults } in
+        if List.length w'.w_faults < List.length !cur.sc_world.w_faults && try_ { !cur with sc_world = w' } then
+          (cur := { !cur with sc_world = w' }; progress := true)) w.w_faults;
+    if !cur.sc_world.w_lat <> [] then begin
+      let w' = { !cur.sc_world with w_lat = [] } in
+      if try_ { !cur with sc_world = w' } then (cur := { !cur with sc_world = w' }; progress := true)
+    end
+  done;
+  !cur
+
+let hex_of_string s =
+  let b = Buffer.create (2 * String.length s) in
+  String.iter (fun c -> Buffer.add_string b (Printf.sprintf "%02x" (Char.code c))) s;
+  Buffer.contents b
+let string_of_hex h =
+  String.init (String.length h / 2) (fun k -> Char.chr (int_of_string ("0x" ^ String.sub h (2 * k) 2)))
+
+let js = Show.json_escape
+let replay_json prop (sc : scenario) kind key what (v : verdict) =
+  Printf.sprintf "{\"property\":\"%s\",\"kind\":\"%s\",\"key\":\"%s\",\"what\":\"%s\",\"scenario\":\"%s\",\"model_agrees\":%b,\"projection_diff\":\"%s\",\"impl_monitor\":[%s],\"model_monitor\":[%s],\"marshal_hex\":\"%s\"}"
+    prop kind (js key) (js what) (js (Show.scenario sc)) v.v_proj_equal (js v.v_diff)
+    (String.concat "," (List.map (fun (f : Mon.fail) -> Printf.sprintf "\"%s: %s\"" (js f.key) (js f.what)) v.v_impl_fails))
+    (String.concat "," (List.map (fun (f : Mon.fail) -> Printf.sprintf "\"%s: %s\"" (js f.key) (js f.what)) v.v_model_fails))
+    (hex_of_string (Marshal.to_string sc []))
+
+type rec_ = { idx : int; fam : int; v : verdict }
+
+let () =
+  match Array.to_list Sys.argv with
+  | [ _; "family"; prop; tier; seed; out ] | [ _; "family"; prop; tier; seed; out; _ ] | [ _; "family"; prop; tier; seed; out; _; _ ] ->
+    let jobs = if Array.length Sys.argv > 6 then int_of_string Sys.argv.(6) else 16 in
+    let budget = if Array.length Sys.argv > 7 then float_of_string Sys.argv.(7) else (if tier = "quick" then 40.0 else 420.0) in
+    let t0 = Unix.gettimeofday () in
+    let fams = Fam.families prop tier (int_of_string seed) in
+    let all = Array.of_list (List.concat (List.mapi (fun fi (f : Fam.fam) -> List.map (fun sc -> (fi, sc)) f.scs) fams)) in
+    let n = Array.length all in
+    (* workers *)
+    let chans = List.init jobs (fun j ->
+        let (rfd, wfd) = Unix.pipe () in
+        flush stdout; flush stderr;
+        match Unix.fork () with
+        | 0 ->
+          Unix.close rfd;
+          let recs = ref [] and skipped = ref 0 in
+          let k = ref j in
+          while !k < n do
+            if Unix.gettimeofday () -. t0 > budget then incr skipped
+            else begin
+              let (fi, sc) = all.(!k) in
+              recs := { idx = !k; fam = fi; v = judge prop sc } :: !recs
+            end;
+            k := !k + jobs
+          done;
+          let oc = Unix.out_channel_of_descr wfd in
+          Marshal.to_channel oc (!recs, !skipped) []; flush oc; Unix._exit 0
+        | pid -> Unix.close wfd; (pid, Unix.in_channel_of_descr rfd)) in
+    let recs = ref [] and skipped = ref 0 in
+    List.iter (fun (pid, ic) ->
+        (try let (r, s) : rec_ list * int = Marshal.from_channel ic in recs := r @ !recs; skipped := !skipped + s
+         with _ -> skipped := !skipped + 1);
+        close_in ic; ignore (Unix.waitpid [] pid)) chans;
+    let recs = List.sort (fun a b -> compare a.idx b.idx) !recs in
+    (* aggregate *)
+    let evals = List.length recs in
+    let digests = Hashtbl.create 1024 in
+    List.iter (fun r -> if r.v.v_nontrivial then Hashtbl.replace digests r.v.v_digest ()) recs;
+    let strict_diffs = List.length (List.filter (fun r -> not r.v.v_equal) recs) in
+    let finals = Hashtbl.create 8 in
+    List.iter (fun r -> Hashtbl.replace finals r.v.v_final (1 + Option.value ~default:0 (Hashtbl.find_opt finals r.v.v_final))) recs;
+    (* failures grouped by key: impl monitor failures, then projection diffs *)
+    let groups : (string, (string * string * int * rec_ * int list) ) Hashtbl.t = Hashtbl.create 16 in
+    let add kind key what r =
+      match Hashtbl.find_opt groups (kind ^ "|" ^ key) with
+      | Some (k, w, c, best, fl) -> Hashtbl.replace groups (kind ^ "|" ^ key) (k, w, c + 1, (if r.v.v_nops < best.v.v_nops then r else best), (if List.mem r.fam fl then fl else r.fam :: fl))
+      | None -> Hashtbl.replace groups (kind ^ "|" ^ key) (kind, what, 1, r, [ r.fam ]) in
+    List.iter (fun r ->
+        List.iter (fun (f : Mon.fail) -> add "monitor" f.key f.what r) r.v.v_impl_fails;
+        if not r.v.v_proj_equal && r.v.v_impl_fails = [] then add "diff" (prop ^ "/model-impl-diff") r.v.v_diff r) recs;
+    let model_only = Hashtbl.create 8 in
+    List.iter (fun r -> List.iter (fun (f : Mon.fail) ->
+        if not (List.exists (fun (g : Mon.fail) -> g.key = f.key) r.v.v_impl_fails) then Hashtbl.replace model_only f.key f.what) r.v.v_model_fails) recs;
+    let failures = Hashtbl.fold (fun gk (kind, what, count, best, fl) acc ->
+        let key = List.nth (String.split_on_char '|' gk) 1 in
+        let (_, sc) = all.(best.idx) in
+        let bad sc' =
+          let v = judge prop sc' in
+          if kind = "monitor" then List.exists (fun (f : Mon.fail) -> f.key = key) v.v_impl_fails
+          else not v.v_proj_equal in
+        let sc' = shrink bad sc in
+        let v' = judge prop sc' in
+        let what' = if kind = "monitor" then (match List.find_opt (fun (f : Mon.fail) -> f.key = key) v'.v_impl_fails with Some f -> f.what | None -> what) else v'.v_diff in
+        Printf.sprintf "{\"kind\":\"%s\",\"key\":\"%s\",\"what\":\"%s\",\"count\":%d,\"families\":[%s],\"replay\":%s}" kind (js key) (js what') count
+          (String.concat "," (List.map (fun fi -> Printf.sprintf "\"%s\"" (js (List.nth fams fi).Fam.name)) fl))
+          (replay_json prop sc' kind key what' v') :: acc) groups [] in
+    let samples = List.filteri (fun k _ -> k < 3) (List.filter_map (fun r ->
+        if r.v.v_nontrivial && r.idx mod (max 1 (n / 3)) = 0 then Some (Printf.sprintf "\"%s\"" (js (Show.scenario (snd all.(r.idx))))) else None) recs) in
+    let samples = if samples = [] && n > 0 then [ Printf.sprintf "\"%s\"" (js (Show.scenario (snd all.(0)))) ] else samples in
+    let fam_json = String.concat "," (List.mapi (fun fi (f : Fam.fam) ->
+        let mine = List.filter (fun r -> r.fam = fi) recs in
+        Printf.sprintf "{\"family\":\"%s\",\"generated\":%d,\"run\":%d,\"enumerated_completely\":%b}" (js f.name) (List.length f.scs) (List.length mine)
+          (f.exhaustive && List.length mine = List.length f.scs)) fams) in
+    let oc = open_out out in
+    Printf.fprintf oc "{\"tie\":\"sim-%s\",\"evaluations\":%d,\"distinct_nontrivial\":%d,\"rule\":\"%s\",\"exhaustive\":%b,\"samples\":[%s],\"distribution\":{\"families\":[%s],\"outcomes\":{%s},\"skipped_for_time\":%d,\"strict_whole_run_differences\":%d,\"model_only_monitor_failures\":[%s]},\"failures\":[%s],\"wall_s\":%.1f}\n"
+      prop evals (Hashtbl.length digests)
+      (js "scenario families generated from the seed (enumerated grids + random histories); each scenario is run on the Coq model and on the real C objects against the same extracted world; distinct = distinct property projections of the implementation run; non-trivial = contains a successful start (or exercises start validation)")
+      (List.for_all (fun (f : Fam.fam) -> f.exhaustive) fams && !skipped = 0)
+      (String.concat "," samples) fam_json
+      (String.concat "," (Hashtbl.fold (fun k c acc -> Printf.sprintf "\"%s\":%d" (js k) c :: acc) finals []))
+      !skipped strict_diffs
+      (String.concat "," (Hashtbl.fold (fun k w acc -> Printf.sprintf "\"%s: %s\"" (js k) (js w) :: acc) model_only []))
+      (String.concat "," failures) (Unix.gettimeofday () -. t0);
+    close_out oc
+  | [ _; "time"; prop; tier; seed; cnt ] ->
+    let fams = Fam.families prop tier (int_of_string seed) in
+    let all = List.concat_map (fun (f : Fam.fam) -> f.scs) fams in
+    List.iteri (fun k sc -> if k < int_of_string cnt then begin
+        let t0 = Unix.gettimeofday () in
+        let m = run_model sc in
+        let t1 = Unix.gettimeofday () in
+        let r = run_impl_isolated sc in
+        let t2 = Unix.gettimeofday () in
+        let _ = Mon.projection prop m [] in
+        let _ = Mon.monitor prop m sc [] in
+        let t3 = Unix.gettimeofday () in
+        if t1 -. t0 > 2.0 then print_endline (String.sub (Show.scenario sc) 0 600);
+        Printf.printf "%d model %.3f impl %.3f mon %.3f final %s impl=%s events=%d\n%!" k (t1 -. t0) (t2 -. t1) (t3 -. t2) (Show.final m.r_final)
+          (match r with Some (r, _) -> Show.final r.r_final | None -> "CRASH") (List.length m.r_last.w_trace)
+      end) all
+  | [ _; "replay"; file; prop ] ->
+    let ic = open_in file in
+    let len = in_channel_length ic in
+    let txt = really_input_string ic len in
+    close_in ic;
+    let tag = "\"marshal_hex\"" in
+    let rec find k = if k + String.length tag > String.length txt then -1 else if String.sub txt k (String.length tag) = tag then k + String.length tag else find (k + 1) in
+    let p0 = find 0 in
+    if p0 < 0 then (prerr_endline "no marshal_hex in replay"; exit 2);
+    let p0 = String.index_from txt p0 '"' + 1 in
+    let p1 = String.index_from txt p0 '"' in
+    let sc : scenario = Marshal.from_string (string_of_hex (String.sub txt p0 (p1 - p0))) 0 in
+    print_endline (Show.scenario sc);
+    let v = judge prop sc in
+    Printf.printf "model/impl projection equal: %b %s\n" v.v_proj_equal v.v_diff;
+    List.iter (fun (f : Mon.fail) -> Printf.printf "impl monitor: %s: %s\n" f.key f.what) v.v_impl_fails;
+    List.iter (fun (f : Mon.fail) -> Printf.printf "model monitor: %s: %s\n" f.key f.what) v.v_model_fails;
+    (match run_impl_isolated sc with
+     | Some (r, fl) ->
+       List.iter (fun st -> Printf.printf "  %s -> %s\n" (Show.op st.s_op) (Show.opres st.s_res)) r.r_steps;
+       Printf.printf "  final=%s flags=%s\n" (Show.final r.r_final) (String.concat "," fl);
+       let m = run_model sc in
+       let tm = List.rev m.r_last.w_trace and tr = List.rev r.r_last.w_trace in
+       let rec go k a b = match a, b with
+         | [], [] -> print_endline "  traces identical"
+         | x :: a', y :: b' ->
+           if x = y then (if Sys.getenv_opt "VERIF_TRACE" <> None then Printf.printf "    %d %s\n" k (Show.event x); go (k + 1) a' b')
+           else begin
+             Printf.printf "  trace differs at %d:\n    model: %s\n    impl : %s\n" k (Show.event x) (Show.event y);
+             List.iteri (fun j e -> if j < 4 then Printf.printf "    model+%d: %s\n" (j + 1) (Show.event e)) a';
+             List.iteri (fun j e -> if j < 4 then Printf.printf "    impl +%d: %s\n" (j + 1) (Show.event e)) b'
+           end
+         | x :: _, [] -> Printf.printf "  model has extra event %d: %s\n" k (Show.event x)
+         | [], y :: _ -> Printf.printf "  impl has extra event %d: %s\n" k (Show.event y) in
+       go 0 tm tr
+     | None -> print_endline "  impl crashed");
+    exit (if v.v_impl_fails <> [] then 1 else 0)
+  | _ ->
+    let w = mk_world ~fs:[ prog "/bin/c" [ a_write 1 10; a_sleep 50; a_exit 7 ] ] () in
+    let sc = { sc_world = w; sc_ops = [ new_ (); start (argv [ "c" ]); read 1 100; wait (-1); read 1 100; destroy () ] } in
+    let m = run_model sc in
+    Printf.printf "model: final=%s steps=%d events=%d\n" (Show.final m.r_final) (List.length m.r_steps) (List.length m.r_last.w_trace);
+    (match run_impl_isolated sc with
+     | None -> print_endline "impl: crashed"
+     | Some (r, fl) ->
+       Printf.printf "impl: final=%s steps=%d events=%d flags=%s\n" (Show.final r.r_final) (List.length r.r_steps) (List.length r.r_last.w_trace) (String.concat "," fl);
+       if m = r then print_endline "EQUAL" else print_endline "DIFFERENT")
